@@ -2,7 +2,8 @@
 
    case = [op; ety; sz; A; B; wi; wv]     (sz = size_of::<T>() measured by the harness; ety 0 u32,
                                            1 Tr, 2 Tz: zero-sized identities are printed as 0,
-                                           3 Tb: a one-byte element with a destructor, identities mod 256)
+                                           3 Tb: a one-byte element with a destructor, identities mod 256,
+                                           4 Tri: 12 plain bytes)
    op 0/1/2  flatten owned / & / &mut of an M-array of N-arrays, (N, M) = (A, B); leaf (i, j) has id 1000*i + j
    op 3/4/5  unflatten owned / & / &mut of an NM-array into N-arrays, (NM, N) = (A, B); element k has id 7*k + 3
    OBS owned flatten  : 0, length, ids in order, number of drop/clone events | 2 (size-test panic)
